@@ -4,7 +4,7 @@ imported here).  `load_all()` fills pyvc.contracts.REG; PROPERTIES configures
 the per-property check (which functions have a bounded stand-in, level, notes)."""
 import importlib
 
-MODULES = ["shapes", "catalogue", "c03_status", "c19_active_tags", "c17_rerun", "c10_location", "c11_matching", "c18_capture", "runs_common", "run_step", "run_scenario", "run_containers", "c08_tagexpr", "c14_summary", "c09_selection", "c13_context", "c02_steps", "c11_loading", "c06_outline", "c16_junit", "c20_config", "c15_formatters", "bounded_only"]
+MODULES = ["shapes", "catalogue", "c03_status", "c19_active_tags", "c17_rerun", "c10_location", "c11_matching", "c18_capture", "runs_common", "run_step", "run_scenario", "run_containers", "c08_tagexpr", "c14_summary", "c09_selection", "c13_context", "c02_steps", "c11_loading", "c06_outline", "c16_junit", "c20_config", "c15_formatters", "c05_parser", "bounded_only"]
 _loaded = []
 
 PROPERTIES = {}
